@@ -116,7 +116,7 @@ class ModelMixin:
         if isinstance(v, (int, float)) and not is_sym(v):
             # keep integers exact: A-REAL
             return [ok(to_real(v), st)] if isinstance(v, int) else [ok(v, st)]
-        if is_sym(v) and z3.is_int(v):
+        if is_sym(v) and z3.is_int(v) and self.ieee_checks:
             # A-IEEE: int -> double conversion is exact below 2**53
             self.oblige(st, f'ieee.float_exact@{line}', z3.And(v > -2**53, v < 2**53), kind='safety', line=line)
         return [ok(to_real(v), st)]
@@ -671,6 +671,21 @@ class ModelMixin:
             out.append(ok(self.smap_value(recv, s2.obj(recv), kt) if isin else default, s2))
         return out
 
+    def m_smap_pop(self, recv, h, args, kwargs, st, line):
+        kt = self.key_term(args[0], h)
+        out = []
+        for isin, s2 in self.branch(st, z3.Select(h.meta['present'], kt)):
+            h2 = s2.obj(recv)
+            if isin:
+                val = self.smap_value(recv, h2, kt)
+                h2.meta['present'] = z3.Store(h2.meta['present'], kt, False)
+                out.append(ok(val, s2))
+            elif len(args) > 1:
+                out.append(ok(args[1], s2))
+            else:
+                out.append(rs(ExcV('KeyError', (args[0],)), s2))
+        return out
+
     def m_smap_setdefault(self, recv, h, args, kwargs, st, line):
         kt = self.key_term(args[0], h)
         out = []
@@ -840,8 +855,14 @@ class ModelMixin:
             return
         for fname, t in mon.fields.items():
             oh.fields[fname] = self.make_symbolic(t, f'{fname}', st)
+        for nfield, nfields in mon.nested.items():
+            nh = st.obj(oh.fields[nfield])
+            for fname, t in nfields.items():
+                nh.fields[fname] = self.make_symbolic(t, f'{nfield}.{fname}', st)
         for nm, f in mon.invariant(View(self, st), owner).items():
             st.assume(f)
+        if mon.on_acquire is not None:
+            mon.on_acquire(self, st, owner)
         st.ghost[('mon_old', owner.oid)] = st.fork()
 
     def monitor_exit(self, lk, st, line):
